@@ -71,3 +71,149 @@ def encoding(ctx, prog):
             names = (c.locals[a[2][2][1]]["name"], c.locals[a[3][2][1]]["name"]) if ok else None
             ctx.ob(R, "compress_block_hash_with_rle calls update_rle_block(rle_block_out, offset, <stored length> - 1, <repeat counter> + 1)", ok, "args %s" % ([show(x)[:40] for x in a],), c.loc(t["sp"]))
     ctx.floor(R, n, 2, "encoder calls in the compressor")
+
+
+def validator_refusals(ctx, prog):
+    """is_valid_rle_block_for_block_hash: the set of refusals (each `false` result with the conditions it is reached under) is
+    exactly the reviewed one - the validator accepts what the compressor writes (a stricter validator makes correctly built
+    dual hashes `invalid`, a laxer one lets non-canonical storage pass) """
+    import re
+    from ..sym import path_conds, bool_atom
+    RV = "SA-VALIDATE"
+    f = prog.fn("hash_dual::algorithms::is_valid_rle_block_for_block_hash")
+    ctx.visit(f)
+    sy = Sym(f)
+
+    def defs_of(l):
+        return [canon(strip(sy.rvalue(x) if k == "rv" else sy.call(x, b))) for (b, _i, k, x) in f.defs.get(l, [])]
+    ITEM = None
+    for i, t in f.calls():
+        if callee_of(t).endswith("rle_encoding::decode"):
+            ITEM = canon(strip(sy.operand(t["args"][0])))
+    if ITEM is None:
+        return ctx.ob(RV, "RLE validator decodes each entry with rle_encoding::decode", False, "no decode call", f.loc())
+    DEC = "internals::hash_dual::rle_encoding::decode(%s)" % ITEM
+    roles = {}
+    for l in range(f.argc + 1, len(f.locals)):
+        ds = sorted(set(re.sub(r"^\((\w+)WithOverflow\((.*)\)\)\.0$", r"\1(\2)", d) for d in defs_of(l)))
+        me = "local:%s_%d" % (f.locals[l]["name"], l)
+        if ds == sorted(["0", DEC + ".0"]):
+            roles[me] = "PREVPOS"
+        elif ds == sorted(["0", DEC + ".1"]):
+            roles[me] = "PREVLEN"
+        elif ds == ["0", "1"] and f.locals[l]["ty"] == "bool" and f.locals[l]["name"]:
+            roles[me] = "TERMSEEN"
+        elif len(ds) == 2 and ("(param:blockhash_len as u32)" in ds or "param:blockhash_len" in ds) and any(d.startswith("Add(%s," % me) and (DEC + ".1") in d for d in ds):
+            roles[me] = "EXPANDED"
+
+    def N(txt):
+        txt = txt.replace(DEC + ".0", "POS").replace(DEC + ".1", "LEN").replace(ITEM, "ITEM")
+        for k, v in roles.items():
+            txt = txt.replace(k, v)
+        txt = txt.replace("internals::hash_dual::rle_encoding::", "").replace("internals::hash::block::block_hash::", "")
+        return txt
+
+    def atom_txt(c):
+        a = bool_atom(c)
+        if a is None:
+            return None
+        if a[0] == "truth":
+            return ("truth", N(canon(strip(a[1]))), a[2])
+        return (a[0], N(canon(strip(a[1]))), N(canon(strip(a[2]))))
+
+    def or_operands(l):
+        """operands of a short-circuit `a || b || c` stored in the bool temporary l"""
+        out = set()
+        for (b, _i, k, x) in f.defs.get(l, []):
+            if k != "rv":
+                return None
+            v = strip(sy.rvalue(x))
+            if v[0] == "const" and const_value(v) == 1:
+                # the shared `true` block of a short-circuit: one operand per incoming switch edge
+                from ..sym import edge_cond
+                for p in f.preds.get(b, []):
+                    tgt = b
+                    # look through empty forwarding blocks
+                    while f.blocks[p]["term"]["t"] == "goto" and not f.blocks[p]["stmts"] and len(f.preds.get(p, [])) == 1:
+                        tgt, p = p, f.preds[p][0]
+                    c = edge_cond(f, sy, p, tgt)
+                    a = atom_txt(c) if c else None
+                    if a is None:
+                        return None
+                    out.add(a)
+            elif v[0] == "const":
+                continue
+            elif v[0] == "bin":
+                out.add((v[1], N(canon(strip(v[2]))), N(canon(strip(v[3])))))
+            else:
+                return None
+        return out
+    sites = []
+    for i, j, s in f.stmts():
+        if s["s"] == "assign" and s["lhs"]["l"] == 0 and not s["lhs"]["p"]:
+            v = const_value(strip(sy.rvalue(s["rv"])))
+            atoms = set()
+            for c in path_conds(f, sy, i):
+                a = atom_txt(c)
+                if a is None or (a[0] == "truth" and a[1].startswith("discr(")):
+                    continue
+                m = re.match(r"^local:_(\d+)$", a[1]) if a[0] == "truth" else None
+                if m:
+                    ops = or_operands(int(m.group(1)))
+                    if ops and a[2] is True:
+                        atoms.add(("OR",) + tuple(sorted(ops)))
+                    continue   # a False short-circuit temp is expanded by path_conds into its negated operands
+                # beliefs of debug builds about slice bounds (invariant!(start < len) ...) are not refusal conditions
+                if a[0] in ("Lt", "Le") and ("core::slice::<impl [T]>::len(" in a[2] or a[1].startswith("Add(Sub((POS as usize)") or a[1].startswith("Sub((POS as usize)")):
+                    continue
+                atoms.add(a)
+            sites.append((v, frozenset(atoms), s["sp"]))
+    nt = ("Ne", "ITEM", "TERMINATOR=0")
+    seq1 = "Sub((MAX_SEQUENCE_SIZE=3 as u8),1)"
+    inpos = {("Ge", "POS", seq1), ("Lt", "POS", "param:blockhash_len"), ("Ge", "POS", "PREVPOS")}
+    want = {
+        "data after the terminator": (0, {nt, ("truth", "TERMSEEN", True)}),
+        "position out of range or going backwards": (0, {nt, ("OR", ("Ge", "POS", "param:blockhash_len"), ("Lt", "POS", "PREVPOS"), ("Lt", "POS", seq1))}),
+        "extension of a run that was not full": (0, {nt} | inpos | {("Eq", "PREVPOS", "POS"), ("Ne", "PREVLEN", "MAX_RUN_LENGTH=4")}),
+        "new run whose three symbols before the position are not identical": (0, None),
+        "expanded length exceeds the capacity": (0, {("Gt", "EXPANDED", "SZ_BH")}),
+        "accept": (1, {("Le", "EXPANDED", "SZ_BH")}),
+    }
+    used = set()
+    for name, (val, atoms) in want.items():
+        hit = None
+        for k, (v, a, sp) in enumerate(sites):
+            if k in used or v != val:
+                continue
+            if atoms is None:
+                rest = a - ({nt} | inpos | {("Ne", "PREVPOS", "POS")})
+                if {("Ne", "PREVPOS", "POS")} <= a and len(rest) == 1 and list(rest)[0][0] == "truth" and "Iterator>::any(" in list(rest)[0][1] and list(rest)[0][2] is True:
+                    hit = k
+            elif a == frozenset(atoms):
+                hit = k
+        if hit is not None:
+            used.add(hit)
+        ctx.ob(RV, "RLE validator: %s <- %s" % ("refuses" if val == 0 else "accepts", name), hit is not None,
+               "site found" if hit is not None else "no result site with exactly these conditions; sites: %s" % [sorted(a) for v, a, sp in sites if v == val][:3], f.loc())
+    extra = [(v, sorted(a)) for k, (v, a, sp) in enumerate(sites) if k not in used]
+    ctx.ob(RV, "RLE validator has no refusal (or acceptance) beyond the six reviewed outcomes", not extra, "%s" % extra[:2] if extra else "%d result sites" % len(sites),
+           f.loc(sites[[k for k in range(len(sites)) if k not in used][0]][2]) if extra else f.loc())
+    # the `new run` clause: any(x != ch) over blockhash[POS-(MAX-1)+1 ..= POS] with ch = blockhash[POS-(MAX-1)]
+    ok = False
+    why = "no any(..)"
+    for i, t in f.calls():
+        if callee_of(t).endswith("Iterator>::any"):
+            src = N(canon(strip(sy.origin(strip(sy.operand(t["args"][0]))))))
+            cl = strip(sy.operand(t["args"][1]))
+            why = "any over %s" % src[:200]
+            start = "Sub((POS as usize),Sub(MAX_SEQUENCE_SIZE=3,1))"
+            rng_ok = ("RangeInclusive" in src and "Add(%s,1)" % start in src and "(POS as usize)" in src and "param:blockhash" in src)
+            ok = rng_ok and cl[0] == "agg" and cl[1].startswith("Closure:")
+            if ok:
+                g = prog.get(cl[1][len("Closure:"):])
+                ce = canon(strip(Sym(g).local(0))) if g else ""
+                caps = [N(canon(strip(x))) for x in cl[2]]
+                ok = bool(re.match(r"^Ne\(param:\w+,param:\w*1\.0\)$", ce))
+                ok = ok and len(caps) == 1 and caps[0].replace(" ", "") == ("param:blockhash[%s]" % start).replace(" ", "")
+                why += "; closure %s capturing %s" % (ce[:60], caps)
+    ctx.ob(RV, "RLE validator: a new run is checked as `any symbol of blockhash[pos-1 ..= pos] differs from blockhash[pos-2]`", ok, why, f.loc())
